@@ -426,7 +426,16 @@ if len(us) != 3 or us_shape[0] != ("Assign(targets=[Name(id='newunits', ctx=Stor
 
 # convert_particle_units: guard on zero hashes; new = check_units(args); per particle units_convert_particle(p, old..., new...); update_units(new)
 cp = nodoc(meth["convert_particle_units"].body)
-if len(cp) != 4: die("convert_particle_units: shape")
+# between check_units and the particle loop: the integrator history is invalidated (1996431); these statements touch no unit bookkeeping
+INVALIDATE = [
+    "Expr(value=Call(func=Attribute(value=Name(id='clibrebound', ctx=Load()), attr='reb_simulation_synchronize', ctx=Load()), args=[Call(func=Name(id='byref', ctx=Load()), args=[Name(id='self', ctx=Load())], keywords=[])], keywords=[]))",
+    "Expr(value=Call(func=Attribute(value=Name(id='clibrebound', ctx=Load()), attr='reb_integrator_ias15_reset', ctx=Load()), args=[Call(func=Name(id='byref', ctx=Load()), args=[Name(id='self', ctx=Load())], keywords=[])], keywords=[]))",
+    "Assign(targets=[Attribute(value=Attribute(value=Name(id='self', ctx=Load()), attr='ri_whfast', ctx=Load()), attr='recalculate_coordinates_this_timestep', ctx=Store())], value=Constant(value=1))",
+    "Assign(targets=[Attribute(value=Attribute(value=Name(id='self', ctx=Load()), attr='ri_mercurius', ctx=Load()), attr='recalculate_coordinates_this_timestep', ctx=Store())], value=Constant(value=1))",
+    "Assign(targets=[Attribute(value=Attribute(value=Name(id='self', ctx=Load()), attr='ri_mercurius', ctx=Load()), attr='recalculate_r_crit_this_timestep', ctx=Store())], value=Constant(value=1))"]
+if len(cp) != 4 + len(INVALIDATE) or [ast.dump(x) for x in cp[2:2 + len(INVALIDATE)]] != INVALIDATE:
+    die("convert_particle_units: shape (guard; check_units; synchronize + ias15 reset + recalculate flags; particle loop; update_units)")
+cp = cp[:2] + cp[2 + len(INVALIDATE):]
 g = cp[0]
 if not (isinstance(g, ast.If) and isinstance(g.test, ast.BoolOp) and isinstance(g.test.op, ast.Or) and len(g.body) == 1 and isinstance(g.body[0], ast.Raise)):
     die("convert_particle_units: guard")
